@@ -462,6 +462,15 @@ def _make_array_cached(array_type, dim_str, dtypes, name):
                 # can write e.g. `Float[Array, "rows=3 cols=4"]`
                 elif elem.count("=") == 1:
                     _, elem = elem.split("=")
+                elif (
+                    elem.count("=") > 1
+                    and elem.split("=", 1)[0].isidentifier()
+                    and not elem.split("=", 1)[1].startswith("=")
+                ):
+                    raise ValueError(
+                        "Do not use `name=` twice to document an axis, e.g. "
+                        "`rows=height=4` is not allowed"
+                    )
                 else:
                     break
             if len(elem) == 0 or elem.isidentifier():
